@@ -296,6 +296,7 @@ func c18b(c *Ctx) {
 		return
 	}
 	ev := &eofEval{c: c, errsEOF: map[*ssa.Function]int{}}
+	lexConsumers := lexerMustConsume(c, rc)
 	// callee summaries: advances on every successful return
 	advances := map[*ssa.Function]bool{}
 	var computeAdv func(f *ssa.Function, depth int) bool
@@ -400,8 +401,8 @@ func c18b(c *Ctx) {
 					if g == rc {
 						return true
 					}
-					// helper loops that read at least one character per call when their guard holds
-					return g != nil && c.W.InRepo(g) && (g.Name() == "skipToNextLine")
+					// helpers that read at least one character on every path
+					return g != nil && c.W.InRepo(g) && lexConsumers[g]
 				}
 				_, stuck := existsPath(pathQuery{from: point{h, len(h.Instrs) - 1}, avoid: isRead, target: toHead})
 				c.Check(!stuck, key+"/reads-a-character", pos, "every iteration reads a character", "an iteration of this lexer loop can return to the loop head without calling readChar (the lexer could spin forever, e.g. on a character its entry test accepts but its loop does not)")
@@ -1240,34 +1241,7 @@ func c18g(c *Ctx) {
 	}
 	// lexer methods that read at least one character on every path to a return: a call of
 	// readChar outside a loop, or of another such method, lies on every path (fixpoint)
-	mustConsume := map[*ssa.Function]bool{}
-	for changed := true; changed; {
-		changed = false
-		for _, f := range c.W.FuncsOf("lexer") {
-			if mustConsume[f] || f == rc || len(f.Blocks) == 0 || f.Signature.Recv() == nil {
-				continue
-			}
-			isCons := func(in ssa.Instruction) bool {
-				ci, ok := in.(ssa.CallInstruction)
-				if !ok {
-					return false
-				}
-				g := callee(ci)
-				return g != nil && ((g == rc && !isInLoopRegion(in.Block())) || mustConsume[g])
-			}
-			free := false
-			for _, r := range returnsOf(f) {
-				rr := r
-				if _, ok := existsPath(pathQuery{from: point{f.Blocks[0], 0}, avoid: isCons, target: func(in ssa.Instruction) bool { return in == ssa.Instruction(rr) }}); ok {
-					free = true
-				}
-			}
-			if !free && len(returnsOf(f)) > 0 {
-				mustConsume[f] = true
-				changed = true
-			}
-		}
-	}
+	mustConsume := lexerMustConsume(c, rc)
 	stripVer := func(s string) string { return regexpMust(`![A-Za-z0-9@_]+`).ReplaceAllString(s, "") }
 	// which reader calls are guaranteed to read at least one character
 	guaranteed := map[ssa.Instruction]string{}
@@ -1541,4 +1515,38 @@ func unconsumedConds(c *Ctx, fn *ssa.Function, b *ssa.BasicBlock, isCons func(ss
 		return []conj{}
 	}
 	return cond[b]
+}
+
+// lexerMustConsume: the lexer methods that read at least one character on every path to a
+// return: a call of readChar outside a loop, or of another such method, lies on every path.
+func lexerMustConsume(c *Ctx, rc *ssa.Function) map[*ssa.Function]bool {
+	mustConsume := map[*ssa.Function]bool{}
+	for changed := true; changed; {
+		changed = false
+		for _, f := range c.W.FuncsOf("lexer") {
+			if mustConsume[f] || f == rc || len(f.Blocks) == 0 || f.Signature.Recv() == nil {
+				continue
+			}
+			isCons := func(in ssa.Instruction) bool {
+				ci, ok := in.(ssa.CallInstruction)
+				if !ok {
+					return false
+				}
+				g := callee(ci)
+				return g != nil && ((g == rc && !isInLoopRegion(in.Block())) || mustConsume[g])
+			}
+			free := false
+			for _, r := range returnsOf(f) {
+				rr := r
+				if _, ok := existsPath(pathQuery{from: point{f.Blocks[0], 0}, avoid: isCons, target: func(in ssa.Instruction) bool { return in == ssa.Instruction(rr) }}); ok {
+					free = true
+				}
+			}
+			if !free && len(returnsOf(f)) > 0 {
+				mustConsume[f] = true
+				changed = true
+			}
+		}
+	}
+	return mustConsume
 }
